@@ -117,7 +117,12 @@ func (s *HTTPMessageSignatures) init() error {
 	}
 
 	keys := make([]jose.JSONWebKey, len(ks.Entries()))
+
 	for idx, entry := range ks.Entries() {
+		if err = entry.CheckJOSESupport(); err != nil {
+			return err
+		}
+
 		keys[idx] = entry.JWK()
 	}
 
